@@ -1,8 +1,71 @@
-(* C18 — placeholder statements while the round-trip proofs are being built *)
-From Coq Require Import NArith List.
-From CTE Require Import Model.Bdl Model.BdlCase.
+(* C18 — the BDL block parser recovers every value written in the file.
+   Statements only; proofs live in Proofs/BdlP.v.  The theorems are about Model/Bdl.v (the block
+   level: cleaner, LIDER preamble, ".." splitter, headers, attributes, number/string typing, parents);
+   the typed elements built from the blocks, KyGananciasSolares.txt and NewBDL_O.tbl are covered by
+   the correspondence only. *)
+From Coq Require Import NArith Bool List String.
+From CTE Require Import Model.Bdl Model.BdlDoc Proofs.BdlP.
 Import ListNotations.
-From Coq Require Import String.
+
+(* layout never matters: indentation, trailing blanks, CR before LF, blank lines, comment and LIDER
+   header lines vanish, whatever their number and position *)
+Theorem C18_layout_erased : forall pls, pls <> [] -> forallb wf_pline pls = true ->
+  forallb not_removed (render pls) = true -> content_lines (render pls) = contents pls.
+Proof. exact content_lines_render. Qed.
+
+(* attributes of any number, order and kind (numbers, bare words, quoted strings, one-line and
+   multi-line lists) are recovered with the written value *)
+Theorem C18_attributes_recovered : forall attrs more acc, forallb wf_attr attrs = true ->
+  parse_attrs (flat_map attr_lines attrs ++ more) acc None =
+  parse_attrs more (fold_left (fun m a => attr_insert (at_key a) (value_result (at_val a)) m) attrs acc) None.
+Proof. exact attrs_parse. Qed.
+
+(* a printed block is parsed to its name, its keyword's type and its attributes *)
+Theorem C18_block_recovered : forall b, wf_block b = true ->
+  exists blk, raw_block b = Some blk /\ parse_block (join [nl] (body_lines b)) = Ok blk.
+Proof. exact parse_block_body. Qed.
+
+(* a printed document of any number of blocks, in any admissible layout, parses to exactly the blocks
+   written, with the parents the floor / space / wall nesting gives *)
+Theorem C18_roundtrip : forall d pls,
+  wf_doc d = true -> pls <> [] -> forallb wf_pline pls = true -> forallb not_removed (render pls) = true ->
+  contents pls = doc_lines d ->
+  first_marker lider_markers (join [nl] (doc_lines d)) = None ->
+  exists l, expected_from init_ps d = Some l /\ build_blocks (render pls) = Ok l.
+Proof. exact bdl_roundtrip. Qed.
+
+Theorem C18_recovered_fields : forall d st l, expected_from st d = Some l ->
+  map b_name l = map ab_name d /\
+  map b_attrs l = map (fun b => attrs_result (ab_attrs b)) d /\
+  map (fun x => Some (b_type x)) l = map (fun b => parse_type (ab_kw b)) d.
+Proof. exact expected_from_fields. Qed.
+
+Theorem C18_numbers_typed : forall v, is_number v = true -> typed v = VNum v.
+Proof. exact typed_number. Qed.
+
+(* non-vacuity: a two-block document with an upper-case exponent, a quoted name and a three-line list,
+   printed with tabs, CR LF, blank and comment lines, meets every hypothesis of C18_roundtrip *)
 Local Open Scope string_scope.
-Example C18_example : is_number (s2l "1.2E+01") = true /\ is_number (s2l "1e") = false.
-Proof. split; reflexivity. Qed.
+Definition ex_doc : list ablock :=
+  [ mkAB (s2l "P01_E01") (s2l " ") (s2l " ") (s2l "SPACE")
+      [ mkAttr (s2l "HEIGHT") (s2l "   ") (s2l " ") (ANum (s2l "2.5E+00"));
+        mkAttr (s2l "POLYGON") (s2l " ") (s2l "") (AQuoted (s2l "P01_E01_Pol2")) ];
+    mkAB (s2l "Muro (25+5)") (s2l "") (s2l "") (s2l "LAYERS")
+      [ mkAttr (s2l "MATERIAL") (s2l " ") (s2l " ") (AList (s2l "( ""a"",") [s2l """b"","; s2l """c"")"]) ] ].
+Definition cr : list N := [13%N].
+Definition ex_layout : list pline :=
+  [ PDropped [] 36%N (s2l " comentario .."); PContent (s2l "  ") (header_line (nth 0 ex_doc (mkAB [] [] [] [] []))) cr;
+    PContent (s2l "	") (s2l "HEIGHT   = 2.5E+00") (s2l "  " ++ cr); PBlank cr;
+    PContent [] (s2l "POLYGON =""P01_E01_Pol2""") cr; PContent (s2l "   ") dotdot cr;
+    PContent [] (s2l """Muro (25+5)""=LAYERS") cr; PContent [] (s2l "MATERIAL = ( ""a"",") cr;
+    PContent (s2l "    ") (s2l """b"",") cr; PContent (s2l "    ") (s2l """c"")") cr; PContent [] dotdot cr; PBlank [] ].
+Example C18_example :
+  wf_doc ex_doc = true /\ forallb wf_pline ex_layout = true /\ forallb not_removed (render ex_layout) = true /\
+  contents ex_layout = doc_lines ex_doc /\ first_marker lider_markers (join [nl] (doc_lines ex_doc)) = None /\
+  match build_blocks (render ex_layout) with
+  | Ok [b1; b2] => b_parent b1 = Some (s2l "Default") /\
+                   b_attrs b1 = [(s2l "HEIGHT", VNum (s2l "2.5E+00")); (s2l "POLYGON", VStr (s2l "P01_E01_Pol2"))] /\
+                   b_attrs b2 = [(s2l "MATERIAL", VStr (s2l "( ""a"",""b"",""c"")"))]
+  | _ => False
+  end.
+Proof. vm_compute. repeat split; reflexivity. Qed.
